@@ -404,6 +404,8 @@ def _init():
 
 
 def run(ctx):
+    from .. import xfeat
+    xfeat.sweep(ctx, "C15")      # cross-feature compositions (pv/xfeat.py)
     level = 1 if ctx.thorough else 0
     tasks = []
     p = [REC.BN128, REC.BLS12_381, REC.CURVE25519][ctx.seed % 3]
@@ -442,6 +444,9 @@ def run(ctx):
 
 
 def replay(case):
+    if isinstance(case, dict) and case.get("xfeat"):
+        from .. import xfeat
+        return xfeat.replay(case, "C15")
     H.bind(case["p"])
 
     def tup(x):
